@@ -2,7 +2,7 @@
     transcriptions (used by tools/checks/c03.py through vm_compute). *)
 From Coq Require Import ZArith List Bool.
 Import ListNotations.
-From VIsa Require Import IsaState ExecImpl ExecSpec ExecImplV ExecSpecV.
+From VIsa Require Import IsaState ExecImpl ExecSpec ExecImplV ExecSpecV IsaFloat ExecImplF ExecSpecF.
 Open Scope Z_scope.
 
 (** partial state as the harness records it: scalars + the probed registers *)
@@ -27,24 +27,36 @@ Definition to_state (p : pstate) : state :=
   mkState (lookup (p_s p)) (lookup2 (p_v p)) (p_exec p) (p_vcc p) (p_scc p) (p_m0 p) (p_pc p)
           (fun _ => 0) (fun _ => 0).
 
-Definition agrees (st : state) (p : pstate) : bool :=
+(** instructions whose VGPR result is a binary32 value: NaN results are compared
+    as a class (payloads are outside the model) *)
+Definition float_dst (i : inst) : bool :=
+  match i_fmt i with
+  | F_VOP2 => existsb (Z.eqb (i_op i)) [1; 2; 3; 5; 10; 11; 22; 23; 24; 59]
+  | F_VOP3A => existsb (Z.eqb (i_op i)) [258; 261; 449; 459]
+  | F_VOP1 => existsb (Z.eqb (i_op i)) [5; 6]
+  | _ => false
+  end.
+Definition veq (fl : bool) (a b : Z) : bool := (a =? b) || (fl && f32_isnan a && f32_isnan b).
+
+Definition agrees_f (fl : bool) (st : state) (p : pstate) : bool :=
   (scc st =? p_scc p) && (vcc st =? p_vcc p) && (exec st =? p_exec p) && (m0 st =? p_m0 p) &&
   (pc st =? p_pc p) &&
   forallb (fun kv => sgpr st (fst kv) =? snd kv) (p_s p) &&
-  forallb (fun kv => vgpr st (fst (fst kv)) (snd (fst kv)) =? snd kv) (p_v p).
+  forallb (fun kv => veq fl (vgpr st (fst (fst kv)) (snd (fst kv))) (snd kv)) (p_v p).
+Definition agrees (st : state) (p : pstate) : bool := agrees_f false st p.
 
 Definition is_vector (f : format) : bool :=
   match f with F_VOP2 | F_VOP1 | F_VOPC | F_VOP3A | F_VOP3B => true | _ => false end.
 Definition exec_impl (a : arch) (st : state) (i : inst) : option state :=
-  if is_vector (i_fmt i) then exec_vector a st i else exec_scalar a st i.
+  if is_vector (i_fmt i) then exec_vector_f a st i else exec_scalar a st i.
 Definition exec_spec_all (a : arch) (st : state) (i : inst) : option state :=
-  if is_vector (i_fmt i) then exec_spec_v a st i else exec_spec a st i.
+  if is_vector (i_fmt i) then exec_spec_vf a st i else exec_spec a st i.
 
 (** 0 = the Go run is exactly what the transcription of the Go code computes *)
 Definition check_impl (c : case) : Z :=
   match exec_impl (c_arch c) (to_state (c_pre c)) (c_inst c) with
   | None => if c_crash c then 0 else 1
-  | Some st' => if negb (c_crash c) && negb (c_eff c) && agrees st' (c_post c) then 0 else 1
+  | Some st' => if negb (c_crash c) && negb (c_eff c) && agrees_f (float_dst (c_inst c)) st' (c_post c) then 0 else 1
   end.
 
 (** 0 = the Go run is what the manual prescribes; 2 = it is not; 4 = the
@@ -52,7 +64,7 @@ Definition check_impl (c : case) : Z :=
 Definition check_spec (c : case) : Z :=
   match exec_spec_all (c_arch c) (to_state (c_pre c)) (c_inst c) with
   | None => 4
-  | Some st' => if negb (c_crash c) && negb (c_eff c) && agrees st' (c_post c) then 0 else 2
+  | Some st' => if negb (c_crash c) && negb (c_eff c) && agrees_f (float_dst (c_inst c)) st' (c_post c) then 0 else 2
   end.
 
 Fixpoint mism (n : Z) (l : list case) : list (Z * Z) :=
